@@ -72,6 +72,9 @@ public:
    bool IsParenOpen() const;
    bool IsParenClose() const;
    bool IsBraceClose() const;
+   bool SafeToDeleteNl() const;
+   bool IsSamePreproc(const Chunk *other) const;
+   void Swap(Chunk *other);
    bool TestFlags(unsigned long flags) const;
    void SetFlags(unsigned long flags);
    void SetFlagBits(unsigned long setBits);
@@ -105,5 +108,6 @@ public:
    Chunk           *m_parent;            //@f struct Chunk *
    UncText         m_str;                //@f& struct UncText
    bool            m_nullChunk;          //@f
+   bool            m_ghostSafeNl;        //@f   ghost (not a member of the real class): what SafeToDeleteNl() answers for this chunk, in kernels that treat it as an attribute
 };
 #endif
